@@ -116,8 +116,8 @@ func runSession(w *sched.W, s sess, dir string) {
 			opo = append(opo, opoptions.WithStopOnFailed())
 		}
 		var single *response.Response
-		var multi *response.MultiResponse
-		var err, setupErr error
+		var multi, follow *response.MultiResponse
+		var err, ferr, setupErr error
 		e.Go("client", func() {
 			var g *generic.Driver
 			var nd *network.Driver
@@ -162,6 +162,11 @@ func runSession(w *sched.W, s sess, dir string) {
 			case "network.SendConfig":
 				single, err = nd.SendConfig(strings.Join(cmds, "\n"), opo...)
 			}
+			if err == nil && opLists[s.ol] != nil {
+				// the operation-level list is for that operation only: the same commands sent again without it are
+				// judged by the driver's list
+				follow, ferr = g.SendCommands(cmds)
+			}
 		})
 		e.OnFinish(func() {
 			tag := "[" + s.String() + "] "
@@ -189,6 +194,20 @@ func runSession(w *sched.W, s sess, dir string) {
 			for _, l := range d.NonEmptyLines() {
 				if strings.HasPrefix(l, "cmd") {
 					got = append(got, l)
+				}
+			}
+			if opLists[s.ol] != nil {
+				if ferr != nil || follow == nil || len(follow.Responses) != n {
+					e.Violate("c13:follow-up-failed", "%sfollow-up SendCommands without options: %v", tag, ferr)
+				} else {
+					for i, r := range follow.Responses {
+						if want := contains(outs[s.asg[i]], drvLists[s.dl]); (r.Failed != nil) != want {
+							e.Violate("c13:operation-list-sticks", "%safter the operation with its own list, response %d (%q) of an option-less send: Failed=%v want failed=%v (driver list %v)", tag, i, outs[s.asg[i]], r.Failed, want, drvLists[s.dl])
+						}
+					}
+				}
+				if len(got) >= n {
+					got = got[:len(got)-n] // the follow-up's commands
 				}
 			}
 			if strings.Join(got, ",") != strings.Join(cmds[:sent], ",") {
@@ -317,7 +336,7 @@ func TestCheck(t *testing.T) {
 	sched.Main(t, sched.Check{
 		ID:          "C13",
 		Level:       "exploration",
-		Rule:        "exhaustive product: API (generic SendCommand/SendCommands/SendCommandsFromFile, network SendCommands/SendConfigs/SendConfig/SendConfigsFromFile) x command lists of length 1..4 (5 thorough) x per-command output in {clean, contains F1, contains F2, contains both, short with F4} x {distinct commands, equal commands for equal outputs (n=2,3)} x driver-level list {none,[F1],[F1,F2],[long never-occurring, F4, F1]} x operation-level list {none,[F2],[F3 never occurring]} x stop-on-failed; each cell is a real session over the CLI device model (which logs what it receives), 0 schedule deviations; oracle = reference rule of the property; distinct = distinct cells",
+		Rule:        "exhaustive product: API (generic SendCommand/SendCommands/SendCommandsFromFile, network SendCommands/SendConfigs/SendConfig/SendConfigsFromFile) x command lists of length 1..4 (5 thorough) x per-command output in {clean, contains F1, contains F2, contains both, short with F4} x {distinct commands, equal commands for equal outputs (n=2,3)} x driver-level list {none,[F1],[F1,F2],[long never-occurring, F4, F1]} x operation-level list {none,[F2],[F3 never occurring]} x stop-on-failed (an operation with its own list is followed by the same commands without options); each cell is a real session over the CLI device model (which logs what it receives), 0 schedule deviations; oracle = reference rule of the property; distinct = distinct cells",
 		Assumptions: []string{"no schedule dimension in the property: whole-buffer reads, default schedule"},
 		Scenarios:   scenarios,
 		Budget:      map[string]time.Duration{"quick": 4 * time.Minute, "thorough": 30 * time.Minute},
